@@ -219,7 +219,18 @@ Definition move (f : fs) (p1 p2 : path) : option fs :=
         match p2 with
         | [] => None
         | _ =>
-            if negb (isdir_b f (parent p2)) then None
+            if negb (isdir_b f (parent p2)) then
+              (* os.rename fails; shutil falls back to copy + delete: for a directory
+                 source copytree creates the missing parents of the destination, for a
+                 file source copy2 fails *)
+              match src with
+              | Dir => if is_prefix p1 p2 then None
+                       else match makedirs f (parent p2) with
+                            | Some f' => Some (do_rename f' p1 p2)
+                            | None => None
+                            end
+              | File _ => None
+              end
             else if path_eqb p1 p2 then Some f
             else if is_prefix p1 p2 then None
             else match src, node_at f p2 with
